@@ -26,8 +26,8 @@ HERE = os.path.dirname(os.path.dirname(os.path.abspath(__file__)))
 REPO = os.environ.get('VERIF_REPO', '/repo')
 SEED = int(os.environ.get('VERIF_SEED', '0') or 0)
 WORKERS = int(os.environ.get('VERIF_WORKERS', '0') or 0) or (os.cpu_count() or 4)
-EVIDENCE_DIR = os.path.join(HERE, 'evidence')
-REPLAY_DIR = os.path.join(HERE, 'replay')
+EVIDENCE_DIR = os.environ.get('VERIF_EVIDENCE_DIR') or os.path.join(HERE, 'evidence')      # overridden only by the seeded-change experiments
+REPLAY_DIR = os.environ.get('VERIF_REPLAY_DIR') or os.path.join(HERE, 'replay')
 FINDINGS_FILE = os.path.join(HERE, 'known_findings.json')
 MAX_REPORTED = 40          # distinct unknown signatures written out as replay files per run
 MAX_PER_SIG = 3            # witnesses kept per signature
